@@ -5,6 +5,8 @@ import Skglm.Model.Cox
 import Skglm.Model.MultiTask
 import Skglm.Model.GramCD
 import Skglm.Model.ProxNewtonDir
+import Skglm.Model.GroupProxNewton
+import Skglm.Model.FISTA
 /-
   Driver operations for the block coordinate-descent moves (GroupBCD), the prox-Newton backtracking
   line search and the Cox sweeps.
@@ -130,6 +132,18 @@ def solverOps (op : String) : Option (P String) :=
       let ⟨n, p, P⟩ ← pProb; let s ← pState n p; let ws ← pWs p; let k ← pNat
       let d := P.descentDirection s ws k
       pure (fmtVec d.dw ++ " " ++ fmt d.db ++ " " ++ fmtVec d.Xd ++ " " ++ fmtVec (P.descentLips s))
+  | "gpn_backtrack" => some do   -- group line search: state after the search, test value and decision at step 1
+      let ⟨n, p, P⟩ ← pGrpProb; let s ← pState n p; let ws ← pNatList
+      let dws ← pList; let db ← pFloat; let Xd ← pVecN n; let fuel ← pNat
+      let d : GPNDir Float n := { dws := dws, db := db, Xd := Xd }
+      pure (fmtState (P.gpnBacktrack fuel P.groups ws s d) ++ " " ++
+            fmtE (P.gpnLineSearchTest P.groups ws s d 1) ++ " " ++ fmtB (P.gpnLineSearchAccept P.groups ws s d 1))
+  | "fista_solve" => some do   -- `FISTA._solve`: w, stop_crit, objective history
+      let ⟨n, p, P⟩ ← pProb; let L ← pFloat; let tol ← pFloat; let k ← pNat
+      let hasInit ← pBool; let w0 ← pVecN p
+      let F : FistaProb Float n p := { X := P.X, y := P.y, sw := P.sw, df := P.df, pen := P.pen, wts := P.wts, L := L }
+      let r := F.solve false tol k (if hasInit then some w0 else none)
+      pure (" ".intercalate ([fmtVec r.1.w, fmtE r.2.1, " ".intercalate (r.2.2.map fmtE)].filter (· ≠ "")))
   | "pn_grad" => some do
       let ⟨n, p, P⟩ ← pProb; let s ← pState n p
       pure (fmtVec (P.pnGrad s.Xw))
